@@ -1,4 +1,4 @@
-"""Front end of the analyser: loader, resolver and the symbolic term builder.
+"""Front end of the analyser: loader, resolver and the value-graph (term) builder.
 
 Nothing in here imports ``lcm`` or ``jax``.  Every module of ``<repo>/src/lcm`` is parsed
 with :mod:`ast`; function bodies are turned into *terms* -- hashable nested tuples in
